@@ -3,7 +3,7 @@ From Bfe Require Import lib.Val lib.Bytes model.TlsRecord.
 Import ListNotations.
 Open Scope Z_scope.
 
-(* input : [ [suiteId vers kind mac bs expl ovh]  [VB write ...]  close  [op ...]  cut  netchunk  rdbuf ]
+(* input : [ [suiteId vers kind mac bs expl ovh padstyle padx]  [VB write ...]  close  [op ...]  cut  netchunk  rdbuf ]
      op  : [1 i off mask] flip | [2 i j] swap | [3 i j] dup | [4 i] drop | [5 i t v n] forge | [6 i n] trunc
    output: [VB delivered  status  seq]   (what Conn.Read returned until its first error; final c.in.seq) *)
 Definition dec_op (v : val) : option op :=
@@ -21,10 +21,10 @@ Record c42_in := mkIn { i_cfg : cfg; i_writes : list (list Z); i_close : bool; i
 
 Definition dec_C42 (v : val) : option c42_in :=
   match v with
-  | VL [VL [VZ _; VZ vers; VZ kind; VZ mac; VZ bs; VZ expl; VZ ovh]; ws; VZ close; VL ops; VZ cutn; VZ _; VZ _] =>
+  | VL [VL [VZ _; VZ vers; VZ kind; VZ mac; VZ bs; VZ expl; VZ ovh; VZ pad; VZ padx]; ws; VZ close; VL ops; VZ cutn; VZ _; VZ _] =>
     match as_LB ws, all_some (map dec_op ops) with
     | Some writes, Some script =>
-      Some (mkIn (mkCfg kind mac bs expl ovh vers) writes (negb (close =? 0)) script cutn)
+      Some (mkIn (mkCfg kind mac bs expl ovh vers pad padx) writes (negb (close =? 0)) script cutn)
     | _, _ => None
     end
   | _ => None
@@ -36,22 +36,20 @@ Definition orig_wire (x : c42_in) : list (srec sbody) :=
 Definition tampered_wire (x : c42_in) : list (srec sbody) * Z :=
   apply_cut sbody (apply_script sbody (orig_wire x) (i_script x)) (i_cut x).
 
-Definition wf_C42 (x : c42_in) : bool :=
+(* suite shapes that exist in cipher_suites.go: CBC block size 8 or 16, explicit IV = 0 or one block *)
+Definition cfg_ok (c : cfg) : bool :=
+  wf_cfg c && (c_mac c + c_expl c + c_ovh c <=? 1700) && (c_padx c <=? 15) &&
+  (negb (c_kind c =? 1) || (((c_bs c =? 8) || (c_bs c =? 16)) && ((c_expl c =? 0) || (c_expl c =? c_bs c)))).
+
+(* does the receiving version accept the padding the sending peer uses, on every record of the session? *)
+Definition pads_ok (x : c42_in) : bool :=
+  forallb (fun tp => negb (c_kind (i_cfg x) =? 1) ||
+                     pad_accept (c_vers (i_cfg x)) (sender_pad (i_cfg x) (blen (snd tp))))
+          (plain_records (i_cfg x) (i_writes x) (i_close x)).
+
+Definition wf_base (x : c42_in) : bool :=
   wf_cfg (i_cfg x) && forallb wf_bytes (i_writes x) &&
   (total sbody (apply_script sbody (orig_wire x) (i_script x)) <? 16000).
-
-Definition run_C42 (v : val) : val :=
-  match dec_C42 v with
-  | Some x =>
-    if wf_C42 x then
-      let '(w, trail) := tampered_wire x in
-      let '(d, st, seq) := receive sbody sopen (i_cfg x) w trail in
-      VL [VB d; VZ st; VZ seq]
-    else VErr 0
-  | None => VErr 0
-  end.
-Definition agree_C42 (i o : val) : bool := val_eqb (run_C42 i) o.
-
 (* Did the adversary change anything the receiver reads?  With a close_notify from the client nothing
    after it is read; without one the whole stream is. *)
 Definition relevant (x : c42_in) : bool :=
@@ -63,20 +61,41 @@ Definition relevant (x : c42_in) : bool :=
 Definition tail_dropped (x : c42_in) : bool :=
   let '(w, _) := tampered_wire x in relevant x && srecs_prefix w (orig_wire x).
 
+(* well-formed inputs (what the generator produces): suite shape of the table, writes are bytes, stream
+   below 16000 bytes, and a script that does not change what the receiver reads is written as the empty
+   script (the generator normalises no-op scripts) *)
+Definition wf_C42 (x : c42_in) : bool :=
+  wf_base x && cfg_ok (i_cfg x) &&
+  (relevant x || (match i_script x with [] => true | _ => false end && (i_cut x <? 0))).
+
+Definition run_C42 (v : val) : val :=
+  match dec_C42 v with
+  | Some x =>
+    if wf_base x then
+      let '(w, trail) := tampered_wire x in
+      let '(d, st, seq) := receive sbody sopen (i_cfg x) w trail in
+      VL [VB d; VZ st; VZ seq]
+    else VErr 0
+  | None => VErr 0
+  end.
+Definition agree_C42 (i o : val) : bool := val_eqb (run_C42 i) o.
+
 (* THE PROPERTY on the implementation's observation: delivered bytes are a prefix of the bytes the
    client wrote; if the adversary changed anything Read must end with a hard error (not io.EOF); if
-   nothing was changed everything is delivered and Read ends with io.EOF. *)
+   nothing was changed and the peer's CBC padding is acceptable for the version everything is delivered
+   and Read ends with io.EOF. *)
 Definition prop_C42 (i o : val) : bool :=
   match dec_C42 i, o with
   | Some x, VL [VB d; VZ st; VZ _] =>
-    wf_C42 x &&
+    wf_base x &&
     is_prefix d (sent_bytes (i_writes x)) &&
     (if relevant x then negb (st =? 1)
-     else (st =? 1) && bytes_eqb d (sent_bytes (i_writes x)))
+     else if pads_ok x then (st =? 1) && bytes_eqb d (sent_bytes (i_writes x))
+     else true)
   | _, _ => false
   end.
 Definition kf_C42 (i : val) : Z :=
   match dec_C42 i with
-  | Some x => if wf_C42 x && tail_dropped x then 1 else 0
+  | Some x => if wf_base x && tail_dropped x then 1 else 0
   | None => 0
   end.
